@@ -10,7 +10,7 @@ Import ListNotations.
 Local Open Scope N_scope.
 
 Lemma table_sweep : table_ok bishop_stuff rook_stuff magic_size (magic_moves bishop_stuff rook_stuff) = true.
-Proof. vm_cast_no_check (eq_refl true). Qed.
+Proof. vm_compute. reflexivity. Qed.
 
 (* the lookups of movegen.cpp, for ALL occupancies: what the table filler computes by walking the rays,
    and every index stays inside the array *)
